@@ -1505,6 +1505,87 @@ fn gen(rng: &mut Rng, n: usize, tier: &str) -> Vec<String> {
         }
         out.push(show_case(&Case { real: false, oper: file && rng.chance(1, 5), file, max_ck, ttl, ops }));
     }
+    out.extend(spread_restart_family(tier));
+    out
+}
+
+/// spread-restart family (kind Q, seeded C20-14; constructive, no randomness - it does not depend on the random stream):
+/// the FIRST life takes k = 2..4 checkpoints spread over 2..4 milliseconds in every pattern (a clock advance between some
+/// of them), so that its last millisecond M holds ids with suffix >= 1 and - unless the advance came before the first
+/// checkpoint of M only - NO `_000000`; it ends by a clean exit after its last checkpoint (`Y99`), by a kill after the
+/// data file is written (`Y5`), or by an exit after a restore (`V0.99`). The SECOND life (a new store, `checkpoint_seq` 0
+/// again) starts in the SAME millisecond M or one millisecond later and takes 1..4 checkpoints, without an advance or
+/// with one advance before its j-th checkpoint: only its FIRST id finds `M_000000` free, the later ones run into the
+/// first life's files. Then EVERY id of both lives is restored: ids new (`ids_distinct_across_restart`), earlier files
+/// unchanged (`earlier_life_checkpoint_changed`), every restore its own state. No retention in either life.
+fn spread_restart_family(tier: &str) -> Vec<String> {
+    let mut out = Vec::new();
+    // gap patterns of the first life: gaps[i] = clock advance in front of its (i+1)-th checkpoint (i >= 1), at least one > 0
+    let mut gap_patterns: Vec<Vec<u64>> = Vec::new();
+    for k in 2..=4usize {
+        for code in 1..(1u32 << (k - 1)) {
+            gap_patterns.push((0..k - 1).map(|i| ((code >> i) & 1) as u64).collect());
+        }
+    }
+    gap_patterns.push(vec![2]);
+    gap_patterns.push(vec![0, 2]);
+    gap_patterns.push(vec![1, 0, 2]);
+    let kills: Vec<Op> = if tier == "thorough" {
+        vec![Op::Kill(99), Op::KillRestore(0, 99), Op::Kill(5), Op::Kill(6), Op::Kill(4)]
+    } else {
+        vec![Op::Kill(99), Op::KillRestore(0, 99), Op::Kill(5)]
+    };
+    for (ki, kop) in kills.iter().enumerate() {
+        for gaps in &gap_patterns {
+            let k = gaps.len() + 1;
+            for delay in 0..2u64 {
+                for n in 1..=4usize {
+                    // j = 0: no advance in the second life; j >= 1: one advance in front of its (j+1)-th checkpoint
+                    for j in 0..n {
+                        // the quick tier keeps the partial-kill variant to the second lives that can collide at all
+                        if tier != "thorough" && ki == 2 && (n < 2 || delay == 1) {
+                            continue;
+                        }
+                        let mut ops = Vec::new();
+                        let mut ord = 0usize; // ordinal of the checkpoint: its put makes the state unique
+                        let mut n_ids = 0usize;
+                        for i in 0..k {
+                            if i > 0 && gaps[i - 1] > 0 {
+                                ops.push(Op::Advance(gaps[i - 1]));
+                            }
+                            ops.push(Op::Put(ord % 3, ord));
+                            ord += 1;
+                            if i + 1 == k && matches!(kop, Op::Kill(_)) {
+                                ops.push(kop.clone());
+                            } else {
+                                ops.push(Op::Checkpoint);
+                            }
+                            n_ids += 1;
+                        }
+                        if let Op::KillRestore(..) = kop {
+                            ops.push(Op::KillRestore(k - 2, 99));
+                        }
+                        if delay > 0 {
+                            ops.push(Op::Advance(delay));
+                        }
+                        for i in 0..n {
+                            if j > 0 && i == j {
+                                ops.push(Op::Advance(1));
+                            }
+                            ops.push(Op::Put(ord % 3, ord));
+                            ord += 1;
+                            ops.push(Op::Checkpoint);
+                            n_ids += 1;
+                        }
+                        for i in 0..n_ids {
+                            ops.push(Op::Restore(i));
+                        }
+                        out.push(show_case(&Case { real: true, oper: false, file: true, max_ck: 10, ttl: None, ops }));
+                    }
+                }
+            }
+        }
+    }
     out
 }
 
